@@ -2,22 +2,6 @@
 rows() / cells() / used_cells() as double-ended cursors under every interleaving of next / next_back /
 size_hint, headers(), Index<usize>, Index<(usize, usize)>, get.  (The write side is C05.)"""
 LEVEL = "model_checking"
-import os, subprocess
-import vlib
-
-
-def apalache(ctx, tladir, module, args, timeout=600):
-    """Apalache (symbolic) on a typed module; returns True iff it reports no error"""
-    src = os.path.join(vlib.ROOT, "tla", tladir)
-    out = os.path.join(ctx.work, "apalache_%s_%s.out" % (module, "_".join(a.split("=")[-1] for a in args)))
-    cmd = ["timeout", str(timeout), "apalache-mc", "check", "--out-dir=" + os.path.join(ctx.work, "apalache-out")] + args + [module + ".tla"]
-    p = subprocess.run(cmd, cwd=src, stdout=subprocess.PIPE, stderr=subprocess.STDOUT, text=True)
-    open(out, "w").write(p.stdout)
-    if "EXITCODE: OK" in p.stdout:
-        return True, out
-    if "Checker has found an error" in p.stdout:
-        return False, out
-    raise vlib.ToolError("apalache failed on %s (see %s)" % (module, out))
 
 
 def run(ctx):
@@ -48,7 +32,7 @@ def run(ctx):
     ctx.rules.append("CursorInd (Apalache): Init => Safety and IndInv /\\ Next => Safety' with the view length N symbolic")
     for args in (["--cinit=ConstInit", "--init=Init", "--inv=Safety", "--length=0"],
                  ["--cinit=ConstInit", "--init=IndInit", "--inv=Safety", "--length=1"]):
-        ok, out = apalache(ctx, "range", "CursorInd", args)
-        if not ok:
+        ok, out = ctx.apalache("range", "CursorInd", args)
+        if ok is False:
             ctx.fail("spec:CursorInd:" + args[1], {"kind": "apalache", "module": "CursorInd", "args": args, "output": out})
     ctx.extra["apalache_inductive_invariant"] = "CursorInd.IndInv (N symbolic)"
